@@ -225,7 +225,7 @@ _SEQ_FUNCS = {"struct.pack", "str", "bytes", "bytearray", "repr", "encode_key", 
               "sorted"}
 
 
-_METHOD_REDUCTIONS = {"any", "all"}
+_METHOD_REDUCTIONS = {"any", "all", "round"}   # x.m(...) is np.m(x, ...)
 _MODULE_NAMES = {"np", "numpy", "bn", "math", "scipy", "stats", "kernels", "builtins", "operator"}
 
 
@@ -433,6 +433,8 @@ class PolyEnv:
             # x.any() is np.any(x): the method form of an array reduction is its function form
             return self.atom_name(ast.Call(func=ast.Attribute(value=ast.Name(id="np", ctx=ast.Load()), attr=e.func.attr, ctx=ast.Load()),
                                            args=[e.func.value] + list(e.args), keywords=list(e.keywords)))
+        if isinstance(e, ast.Call) and dotted(e.func) == "np.rint" and len(e.args) == 1 and not e.keywords:
+            return self.atom_name(ast.Call(func=ast.Attribute(value=ast.Name(id="np", ctx=ast.Load()), attr="round", ctx=ast.Load()), args=e.args, keywords=[]))
         if isinstance(e, ast.Call):
             fn = dotted(e.func) or self._operand(e.func)
             pos = list(e.args)
